@@ -61,6 +61,14 @@ class C06(Prop):
 
     # ---------------------------------------------------------------- cases
     def cases(self, rng: random.Random, tier: str) -> Iterable[dict]:
+        # whatever the seed: TWIN histories — the same (old, new) pairs applied once as SEQUENTIAL calls on one node and once as ONE parallel
+        # batch on another node of the same process (a swap / a shift): what a history means depends on how it was batched
+        for target in ("fn", "graph", "fn-out", "interrupt"):
+            a, b, c = rng.sample(POOL, 3)
+            for pairs in ([[a, b], [b, a]], [[a, b], [b, c]]):
+                base = {"target": target, "defaults": {}, "ctor": None, "mapOver": [], "omit": [], "seedvals": rng.randint(0, 50), "use_first": False, "use_between": False}
+                yield dict(base, orig=[a], batches=[[pairs[0]], [pairs[1]]])                  # sequential: a -> b, then b -> (a | c)
+                yield dict(base, orig=[a, b], batches=[[pairs[0], pairs[1]]])               # parallel: {a: b, b: (a | c)}
         while True:
             target = rng.choice(["fn", "fn", "route", "ifelse", "interrupt", "graph", "graph", "fn-out", "graph-out", "interrupt-out"])
             n = rng.randint(2 if target == "interrupt-out" else 1, 4)
